@@ -3,7 +3,7 @@
    raw-trace monitors of the pipeline-level properties (C01, C02, C04, C05, C10, C13, C15).
    A trace entry is (objkind objidx kind a b c d): objkind 1 batcher (idx 0 main, 1 dead queue),
    2 stream, 3 processor, 4 pipeline; stream addresses inside a..d are already stream indices. *)
-From Verif Require Import Base.Sx Model.Batcher Model.BatcherGlue Model.Stream Model.Proc Model.StreamFlow Model.Charged.
+From Verif Require Import Base.Sx Model.Batcher Model.BatcherGlue Model.Stream Model.Proc Model.StreamFlow Model.Charged Model.Pipe.
 
 Record pentry := { pok : Z; poi : Z; pk : Z; pa : Z; pb : Z; pc : Z; pd : Z }.
 
@@ -271,6 +271,54 @@ Fixpoint run_flows (n : Z) (sync : bool) (fs : flows) (es : list pentry) (k : Z)
               end
   end.
 
+(* ---- the product (Model/Pipe.v): main batcher and all flows as ONE transition system -------------- *)
+(* the trace's main-batcher labels (Add, Commit, ...) and processor labels drive [gstep]; the theorems of
+   Proofs/Pipe.v (F2 redundant, end-to-end frontier / order / conservation) are about exactly these runs *)
+Record pipes := { pp_cur : list (Z * Z); pp_g : gst }.   (* processor -> current stream; product state *)
+
+Fixpoint gsteps (c : cfg) (n : Z) (g : gst) (s : Z) (ls : list plabel) : option gst :=
+  match ls with
+  | [] => Some g
+  | l :: r => match gstep c n g (GP s l) with Some g' => gsteps c n g' s r | None => None end
+  end.
+
+Definition pipe_step (c : cfg) (n : Z) (ps : pipes) (e : pentry) : option pipes :=
+  if pok e =? 3 then
+    match pk e with
+    | 30 | 31 | 32 | 35 | 36 =>
+        let s := if 0 <=? pa e then pa e else (match last_of_ (poi e) (pp_cur ps) with Some v => v | None => -1 end) in
+        if s <? 0 then None else
+        match plabels_of (proc (gflow n (pp_g ps) s)) e with
+        | Some ls => match gsteps c n (pp_g ps) s ls with
+                     | Some g' => Some {| pp_cur := (poi e, s) :: pp_cur ps; pp_g := g' |}
+                     | None => None
+                     end
+        | None => None
+        end
+    | _ => Some ps
+    end
+  else if (pok e =? 1) && (poi e =? 0) then
+    match bentry_of e with
+    | Some be => match elabel be with
+                 | Some l => match gstep c n (pp_g ps) (GB l) with
+                             | Some g' => Some {| pp_cur := pp_cur ps; pp_g := g' |}
+                             | None => None
+                             end
+                 | None => Some ps
+                 end
+    | None => Some ps
+    end
+  else Some ps.
+
+Fixpoint run_pipe (c : cfg) (n : Z) (ps : pipes) (es : list pentry) (k : Z) : Z * bool :=
+  match es with
+  | [] => (k, true)
+  | e :: r => match pipe_step c n ps e with
+              | Some ps' => run_pipe c n ps' r (k + 1)
+              | None => (k, false)
+              end
+  end.
+
 (* ---- charged-stream hand-off: labels of makeCharged / joinStream replayed through Model/Charged.v ---- *)
 Definition clabel_of (e : pentry) : option clabel :=
   if (pok e =? 2) && (pk e =? 28) then Some CCharge
@@ -476,8 +524,11 @@ Definition lts_ok (atomic : bool) (c : pcfg) (es : list pentry) : bool * sx :=
   let '(n4, ok4) := if p_spread c || p_deadq c then (0, true)   (* spread routing / dead queue: recorded findings, not replayed *)
                     else run_flows (p_actions c) (p_outkind c =? 0) {| fl_cur := []; fl_st := [] |} es 0 in
   let '(n5, ok5) := run_charged cinit es 0 in
-  (ok && negb (scrashed t) && ok1 && ok2 && negb (crashed s1) && negb (crashed s2) && ok3 && ok4 && ok5,
-   SL [SL [of_bool ok; SZ n; of_bool (scrashed t)]; summary n1 s1 ok1; summary n2 s2 ok2; SL [of_bool ok3; SZ n3]; SL [of_bool ok4; SZ n4]; SL [of_bool ok5; SZ n5]]).
+  let '(n6, ok6) := if (1 <=? p_outkind c) && negb (p_spread c) && negb (p_deadq c)
+                    then run_pipe cm (p_actions c) {| pp_cur := []; pp_g := ginit cm |} es 0 else (0, true) in
+  (ok && negb (scrashed t) && ok1 && ok2 && negb (crashed s1) && negb (crashed s2) && ok3 && ok4 && ok5 && ok6,
+   SL [SL [of_bool ok; SZ n; of_bool (scrashed t)]; summary n1 s1 ok1; summary n2 s2 ok2; SL [of_bool ok3; SZ n3]; SL [of_bool ok4; SZ n4]; SL [of_bool ok5; SZ n5];
+       SL [of_bool ok6; SZ n6]]).
 
 (* a monitor set = list of (monitor id, verdict); the ids of the failing ones are reported in the
    model field of a Violates verdict (known findings are matched on them) *)
